@@ -6,6 +6,7 @@ import VProofs.C06
 import VProofs.C15
 import VProofs.C16
 import VProofs.Lemmas.CliSafe
+import VProofs.Lemmas.ExamplesCli
 import VProofs.Lemmas.EvalCountChar
 import VProofs.Lemmas.EvalCountWord
 import VProofs.Lemmas.EvalCountLine
@@ -469,5 +470,141 @@ example : predictCli {} ⟨false, false, true, false, ['D']⟩ C01_exModel "a b\
 
 /-- the hypotheses of `C20_no_crash` / `C20_output_eq_blocks` on the predictor are satisfiable for this model -/
 example : (Predictor.new {} C01_exModel true).isOk = true := by decide
+
+/-! ## the example programs and the predict tool segment alike -/
+
+/-- the embedded device (`examples/embedded_device`, C14) is `predict --no-norm --wsconst D`: for EVERY predictor and every text
+that the sentence constructor accepts, the line the device writes, followed by a newline, is the block the tool writes for that
+line with these flags and no other — in every case: same value, same error, same panic -/
+theorem C20_embedded_eq_predict_tool (p : Predictor) (text : List Char) (hne : text ≠ []) (hnul : '\x00' ∉ text) :
+    (embeddedTokenize p text).map (· ++ ['\n']) =
+      libLine { noNorm := true, predictTags := false, scores := false, tagScores := false, wsconst := ['D'] } p
+        [PostFilter.ws 1] text := by
+  rw [libLine_eq]
+  exact ExCli.embedded_eq_tool p text hne hnul
+
+/-- the hypothesis on the text is needed: on a rejected text (empty, or with a NUL character) the two programs differ by
+design — the device unwraps the constructor's error and panics, the tool prints an empty line -/
+theorem C20_embedded_rejected (p : Predictor) (text : List Char) (h : text = [] ∨ '\x00' ∈ text) :
+    embeddedTokenize p text = .panic "Sentence::from_raw(text).unwrap()" ∧
+    libLine { noNorm := true, predictTags := false, scores := false, tagScores := false, wsconst := ['D'] } p
+      [PostFilter.ws 1] text = .ok ['\n'] := by
+  rw [libLine_eq]
+  exact ExCli.embedded_rejected p text h
+
+/-- … and with the build script in front (`embeddedDevice`: build, serialise, deserialise, tokenise): for a well-formed model
+the whole example is the tool's block under ANY build configuration of the tool (`C14_embedded_cfg_independent`) -/
+theorem C20_embedded_device_eq_predict_tool (cfg : Cfg) (m : WModel) (hm : WFModel m) (text : List Char) (hne : text ≠ [])
+    (hnul : '\x00' ∉ text) :
+    (embeddedDevice m text).map (· ++ ['\n']) =
+      bindR (Predictor.new cfg m false) fun p =>
+        libLine { noNorm := true, predictTags := false, scores := false, tagScores := false, wsconst := ['D'] } p
+          [PostFilter.ws 1] text := by
+  rw [ExL.embedded_cfg_independent cfg m hm text, C20L.map_bindR]
+  exact C20L.bindR_congr _ _ _ fun p _ => C20_embedded_eq_predict_tool p text hne hnul
+
+/-- the browser worker (`examples/wasm`, C16) is `predict --predict-tags --wsconst GD` in its normalising mode: for a
+well-formed model, a non-empty NUL-free message, valid cluster data and ANY state of the worker, the worker answers, the tool
+writes a line, the line parses, its characters are the message, and the worker's token surfaces are exactly the tokens of the
+line — the same segmentation of the same original characters.
+(Added hypothesis `htag`: no tag of the model is empty or contains NUL.  A NUL inside a tag is written as it is and the parser
+of the tokenised format rejects the line — example below; an empty tag is written like an absent one, `C03_roundtrip` excludes
+it.) -/
+theorem C20_wasm_eq_predict_tool (m : WModel) (hm : WFModel m) (ht : WFTags m)
+    (htag : ∀ tm ∈ m.tagModels, ∀ cands ∈ tm.tags, ∀ t ∈ cands, t ≠ [] ∧ '\x00' ∉ t)
+    (p : Predictor) (hp : wasmCreate m = .ok p) (w : WasmWorker) (msg : List Char) (hne : msg ≠ []) (hnul : '\x00' ∉ msg)
+    (cl : List Nat) (hpos : ∀ l ∈ cl, 1 ≤ l) (hsum : cl.sum = msg.length) :
+    ∃ w' toks n line q,
+      wasmReceived p cl w msg = .ok (w', toks, n) ∧
+      libLine { noNorm := false, predictTags := true, scores := false, tagScores := false, wsconst := ['G', 'D'] } p
+        [PostFilter.graphemes cl, PostFilter.ws 1] msg = .ok (line ++ ['\n']) ∧
+      parseTokenized line = .ok q ∧ q.text = msg ∧
+      toks.map (·.1) = (iterTokens q.bounds).map fun se => (q.text.drop se.1).take (se.2 - se.1) := by
+  obtain ⟨w', toks, n, line, q, h1, h2, h3, h4, h5, _⟩ :=
+    ExCli.wasm_eq_tool wasmCfg m hm ht htag p hp w msg hne hnul cl hpos hsum
+  exact ⟨w', toks, n, line, q, h1, by rw [libLine_eq]; exact h2, h3, h4, h5⟩
+
+/-- … and the same tags: the tag list the worker sends with its `i`-th token is the tag list written on the `i`-th token of
+the line (`tokenTagsTrim`: the fields after the surface, an empty field being an absent tag), absent tags sent as empty strings,
+followed by empty strings for the trailing absent tags that the writer drops -/
+theorem C20_wasm_tags_eq_predict_tool (m : WModel) (hm : WFModel m) (ht : WFTags m)
+    (htag : ∀ tm ∈ m.tagModels, ∀ cands ∈ tm.tags, ∀ t ∈ cands, t ≠ [] ∧ '\x00' ∉ t)
+    (p : Predictor) (hp : wasmCreate m = .ok p) (w : WasmWorker) (msg : List Char) (hne : msg ≠ []) (hnul : '\x00' ∉ msg)
+    (cl : List Nat) (hpos : ∀ l ∈ cl, 1 ≤ l) (hsum : cl.sum = msg.length) :
+    ∃ w' toks n line q,
+      wasmReceived p cl w msg = .ok (w', toks, n) ∧
+      libLine { noNorm := false, predictTags := true, scores := false, tagScores := false, wsconst := ['G', 'D'] } p
+        [PostFilter.graphemes cl, PostFilter.ws 1] msg = .ok (line ++ ['\n']) ∧
+      parseTokenized line = .ok q ∧ toks.length = (iterTokens q.bounds).length ∧
+      ∀ i, i < toks.length → ∃ k,
+        (toks.getD i ([], [])).2 =
+          (tokenTagsTrim q.tags (q.tags.length / q.text.length) ((iterTokens q.bounds).getD i (0, 0)).2).map (·.getD [])
+            ++ List.replicate k [] := by
+  obtain ⟨w', toks, n, line, q, h1, h2, h3, _, h5, h6⟩ :=
+    ExCli.wasm_eq_tool wasmCfg m hm ht htag p hp w msg hne hnul cl hpos hsum
+  refine ⟨w', toks, n, line, q, h1, by rw [libLine_eq]; exact h2, h3, ?_, h6⟩
+  have := congrArg List.length h5
+  simpa using this
+
+/-! ### non-vacuity -/
+
+/-- the device and the tool on the model of `C01.lean`: the same line (the tool adds the newline) -/
+example : embeddedDevice C01_exModel "aba 12/3".toList = .ok "a ba\\ 12\\/3".toList ∧
+    (bindR (Predictor.new {} C01_exModel false) fun p =>
+      libLine ⟨true, false, false, false, ['D']⟩ p [PostFilter.ws 1] "aba 12/3".toList) = .ok "a ba\\ 12\\/3\n".toList ∧
+    predictCli {} ⟨true, false, false, false, ['D']⟩ C01_exModel "aba 12/3".toList [] = .ok "a ba\\ 12\\/3\n".toList := by
+  decide
+
+/-- a rejected text: the device panics, the tool prints an empty line -/
+example : embeddedDevice C01_exModel "a\x00".toList = .panic "Sentence::from_raw(text).unwrap()" ∧
+    predictCli {} ⟨true, false, false, false, ['D']⟩ C01_exModel "a\x00".toList [] = .ok "\n".toList := by decide
+
+/-- `C16_exTagModel` satisfies `htag` -/
+example : ∀ tm ∈ C16_exTagModel.tagModels, ∀ cands ∈ tm.tags, ∀ t ∈ cands, t ≠ [] ∧ '\x00' ∉ t := by decide
+
+/-- (instance search gives up on the nested answer type without this stepping stone) -/
+local instance : DecidableEq (List WasmToken × Nat) := inferInstance
+
+/-- the worker and the tool on `C16_exTagModel`, message "aba": the worker sends "a" with tag "y" and "ba" with an absent tag,
+the tool writes `a/y ba`, which parses to the message with the same two tokens -/
+example : (match wasmCreate C16_exTagModel with
+    | .ok p =>
+      decide ((wasmReceived p [1, 1, 1] {} "aba".toList).map (·.2) = .ok ([(['a'], [['y']]), (['b', 'a'], [[]])], 1)) &&
+      decide (libLine ⟨false, true, false, false, ['G', 'D']⟩ p [PostFilter.graphemes [1, 1, 1], PostFilter.ws 1]
+        "aba".toList = .ok "a/y ba\n".toList)
+    | _ => false) = true ∧
+    parseTokenized "a/y ba".toList = .ok ⟨"aba".toList, [.W, .N], [some ['y'], none, none]⟩ ∧
+    predictCli wasmCfg ⟨false, true, false, false, ['G', 'D']⟩ C16_exTagModel "aba".toList [[1, 1, 1]]
+      = .ok "a/y ba\n".toList := by decide
+
+/-- the grapheme filter at work: with the clusters "ab" + "a" the boundary inside the first cluster is removed on both sides -/
+example : (match wasmCreate C16_exTagModel with
+    | .ok p =>
+      decide ((wasmReceived p [2, 1] {} "aba".toList).map (·.2) = .ok ([(['a', 'b', 'a'], [[]])], 1)) &&
+      decide (libLine ⟨false, true, false, false, ['G', 'D']⟩ p [PostFilter.graphemes [2, 1], PostFilter.ws 1]
+        "aba".toList = .ok "aba\n".toList)
+    | _ => false) = true := by decide
+
+/-- `htag` is needed: a well-formed tag model whose only tag is a NUL character — the worker answers, the tool writes the line,
+and the line does not parse -/
+def C20_nulTagModel : WModel :=
+  { C16_exModel with
+    tagModels := [{ token := ['ａ'], tags := [[['\x00']]], charNgrams := [], typeNgrams := [], bias := [] }] }
+
+example : WFModel C20_nulTagModel :=
+  { charW_pos := by decide, charW_le := by decide, typeW_pos := by decide, typeW_le := by decide,
+    char_nodup := by decide, char_shape := by decide, type_nodup := by decide, type_shape := by decide,
+    dict_nodup := by decide, dict_shape := by decide }
+
+example : WFTags C20_nulTagModel :=
+  { tokens_nodup := by decide, bias_len := by decide, char_ok := by decide, type_ok := by decide }
+
+example : (match wasmCreate C20_nulTagModel with
+    | .ok p =>
+      decide ((wasmReceived p [1, 1, 1] {} "aba".toList).map (·.2) = .ok ([(['a'], [['\x00']]), (['b', 'a'], [[]])], 1)) &&
+      decide (libLine ⟨false, true, false, false, ['G', 'D']⟩ p [PostFilter.graphemes [1, 1, 1], PostFilter.ws 1]
+        "aba".toList = .ok "a/\x00 ba\n".toList)
+    | _ => false) = true ∧
+    parseTokenized "a/\x00 ba".toList = .err .invalidArgument := by decide
 
 end V
